@@ -106,6 +106,8 @@ def check(prog, rep):
 SQ = "aw_datastore/storages/sqlite.py"
 PW = "aw_datastore/storages/peewee.py"
 VARIANTS = [
+    ("B chunked bulk insert counts each chunk BEFORE writing it (last chunk never counted after it is written)", SQ, "        self.conn.executemany(query, event_rows)\n        self.conditional_commit(len(event_rows))\n", "        for i in range(0, len(event_rows), 100):\n            chunk = event_rows[i : i + 100]\n            self.conditional_commit(len(chunk))\n            self.conn.executemany(query, chunk)\n", "COMMIT-B"),
+    ("OK chunked bulk insert, each chunk counted after it is written", SQ, "        self.conn.executemany(query, event_rows)\n        self.conditional_commit(len(event_rows))\n", "        for i in range(0, len(event_rows), 100):\n            chunk = event_rows[i : i + 100]\n            self.conn.executemany(query, chunk)\n            self.conditional_commit(len(chunk))\n", "ok"),
     ("B peewee replace = delete + insert (two commits)", PW, "        e = self._get_event(bucket_id, event_id)\n        e.timestamp = event.timestamp\n        e.duration = event.duration.total_seconds()\n        e.datastr = json.dumps(event.data)\n        e.save()\n        event.id = e.id\n        return event\n\n    def get_event", "        old = self._get_event(bucket_id, event_id)\n        old.delete_instance()\n        event.id = event_id\n        e = EventModel.from_event(self.bucket_keys[bucket_id], event)\n        e.save(force_insert=True)\n        return event\n\n    def get_event", "PW-ATOMIC"),
     ("B commit() swallows a failed flush and stamps anyway", SQ, "        self.conn.commit()\n        self.last_commit = datetime.now()", "        try:\n            self.conn.commit()\n        except sqlite3.OperationalError as e:\n            logger.warning(f\"Commit failed: {e}\")\n        self.last_commit = datetime.now()", "COMMIT-D"),
     ("B delete without conditional_commit (original defect)", SQ, "        cursor = self.conn.execute(query, [event_id, bucket_id])\n        self.conditional_commit(1)\n", "        cursor = self.conn.execute(query, [event_id, bucket_id])\n", "COMMIT-B"),
